@@ -4,7 +4,7 @@ signature terms and the root listing.
 
   <path hex> <filtered 0|1> <hidden names: hex list> <tree tokens…>
   tree  ::= F <6 numbers> | L - | L <6 numbers> | D <6 numbers> <k> (<name hex> tree){k}
-  numbers: device inode mode size mtimeSec mtimeNsec (decimal)
+  numbers: device inode mode size mtimeSec mtimeNsec (decimal), optionally followed by c<64 hex digits> (checksum)
 
 `fnmatch` is supplied extensionally: the harness evaluates libc `fnmatch` for every (pattern, name) pair of the case
 and passes the set of names some pattern matches; the model's `Cfg.fnmatch _ n` is membership in that set.
@@ -18,11 +18,22 @@ open LLBuild LLBuild.Drv LLBuild.DirTree
 def hex64 (v : UInt64) : String :=
   String.join ((List.range 8).reverse.map fun k => Hex.ofByte (v >>> (8 * k).toUInt64).toUInt8)
 
+/-- an optional seventh token `c<64 hex digits>`: the 32-byte checksum (checksum-only file-system mode) -/
+def checksum? : List String → Vector UInt8 32 × List String
+  | tok :: rest =>
+    if tok.startsWith "c" then
+      match Hex.decode (tok.drop 1).toString with
+      | some bs => if h : bs.length = 32 then (⟨bs.toArray, by simp [h]⟩, rest) else (Vector.replicate 32 0, tok :: rest)
+      | none => (Vector.replicate 32 0, tok :: rest)
+    else (Vector.replicate 32 0, tok :: rest)
+  | [] => (Vector.replicate 32 0, [])
+
 def info? : List String → Option (Info × List String)
   | a :: b :: c :: d :: e :: f :: rest =>
     match a.toNat?, b.toNat?, c.toNat?, d.toNat?, e.toNat?, f.toNat? with
     | some a, some b, some c, some d, some e, some f =>
-      some (⟨a.toUInt64, b.toUInt64, c.toUInt64, d.toUInt64, e.toUInt64, f.toUInt64⟩, rest)
+      let (ck, rest') := checksum? rest
+      some (⟨a.toUInt64, b.toUInt64, c.toUInt64, d.toUInt64, e.toUInt64, f.toUInt64, ck⟩, rest')
     | _, _, _, _, _, _ => none
   | _ => none
 
